@@ -122,7 +122,7 @@ class Check:
         viols = []
         nrun = 0
         if not replay:
-            shutil.rmtree(os.path.join(VERIF, "replays", self.id), ignore_errors=True)
+            shutil.rmtree(os.path.join(os.environ.get("VERIF_REPLAY_DIR") or os.path.join(VERIF, "replays"), self.id), ignore_errors=True)
         try:
             if replay:
                 cases = [load_replay(replay)]
@@ -218,7 +218,8 @@ class Check:
         pass
 
     def write_evidence(self, tier, seed, nrun, nviol, wall, note=None, known=None):
-        os.makedirs(os.path.join(VERIF, "evidence"), exist_ok=True)
+        evdir = os.environ.get("VERIF_EVIDENCE_DIR") or os.path.join(VERIF, "evidence")   # (tools/tryseed diverts it)
+        os.makedirs(evdir, exist_ok=True)
         cov = {"evaluations": nrun, "distinct_nontrivial": len(self.features_seen), "rule": self.rule,
                "samples": self.samples or [{"note": "no clean sample recorded"}], "exhaustive": bool(self.exhaustive),
                "observed": self.stats, "inconclusive_subgoals": self.inconclusive}
@@ -228,7 +229,7 @@ class Check:
             cov["note"] = note
         ev = {"property_id": self.id, "tier": tier, "seed": seed, "level": self.level, "coverage": cov,
               "assumptions": list(self.assumptions), "wall_s": round(wall, 2), "violations": nviol}
-        with open(os.path.join(VERIF, "evidence", self.id + ".json"), "w") as f:
+        with open(os.path.join(evdir, self.id + ".json"), "w") as f:
             json.dump(ev, f, indent=1, default=str)
 
 
